@@ -247,4 +247,86 @@ def Dec.before (D : Dec) (rbits k : Nat) : Nat := D.ring rbits (2 ^ rbits - k)
 def Dec.ctx1 (D : Dec) (rbits : Nat) : Nat := D.before rbits 1
 def Dec.ctx2 (D : Dec) (rbits : Nat) : Nat := D.before rbits 2
 
+
+/-! ### decoder copy path (brotli-decompressor 4.0.3 `decode.rs`): ring shrink + speculative 16-byte copy
+
+`BrotliAllocateRingBuffer` halves the ring while the first data meta-block is the last one and the ring is at least twice
+`custom_dict_size + meta_block_remaining_len`; `ProcessCommandsInternal` performs every LZ77 copy speculatively with
+`memmove16` BEFORE it tests for wrap / overlap.  The ring is a function `Nat → Nat` over the allocation
+`ringbuffer_size + 42 + 24` (fresh memory zeroed).  A single last meta-block never wraps the ring
+(`ringbuffer_size ≥ d' + mlen`), so the wrap-out of `COMMAND_POST_WRAP_COPY` is not modelled. -/
+
+/-- the `while is_last && size >= 2 * (d' + mlen) && size > 32 { size >>= 1 }` loop -/
+def shrinkLoop : Nat → Nat → Nat → Nat
+  | 0, size, _ => size
+  | fuel + 1, size, need => if size ≥ need * 2 ∧ size > 32 then shrinkLoop fuel (size / 2) need else size
+
+/-- `ringbuffer_size` chosen by `BrotliAllocateRingBuffer` for a first meta-block of `mlen` bytes -/
+def Dec.ringSize (D : Dec) (isLast : Bool) (mlen : Nat) : Nat :=
+  if isLast then shrinkLoop D.wbits (2 ^ D.wbits) (D.dEff + mlen) else 2 ^ D.wbits
+
+/-- ring right after allocation with `ringbuffer_size = R`: zeros, then the dictionary tail at `(−d') & mask` -/
+def Dec.ringAt (D : Dec) (R : Nat) : Nat → Nat :=
+  fun i => if D.dEff ≠ 0 ∧ R - D.dEff ≤ i ∧ i < R then D.dict (D.d - D.dEff + (i - (R - D.dEff))) else 0
+
+/-- `memmove16(data, dst, src)`: 16 bytes are read into a local array, then written -/
+def memmove16 (ring : Nat → Nat) (dst src : Nat) : Nat → Nat :=
+  fun j => if dst ≤ j ∧ j < dst + 16 then ring (src + (j - dst)) else ring j
+
+/-- `memcpy_within_slice(data, dst, src, n)` (safe build: `split_at_mut`, so overlapping ranges panic = `none`) -/
+def memcpyWithin (ring : Nat → Nat) (dst src n : Nat) : Option (Nat → Nat) :=
+  if dst > src then
+    if src + n ≤ dst then some (fun j => if dst ≤ j ∧ j < dst + n then ring (src + (j - dst)) else ring j) else none
+  else
+    if dst + n ≤ src then some (fun j => if dst ≤ j ∧ j < dst + n then ring (src + (j - dst)) else ring j) else none
+
+/-- `(pos - distance) & ringbuffer_mask` in i32 arithmetic, `distance ≤ pos + R` -/
+def srcIndex (R pos dist : Nat) : Nat := (pos + R - dist) % R
+
+/-- `COMMAND_POST_WRAP_COPY`: byte by byte, `ring[pos] = ring[(pos - distance) & mask]` -/
+def wrapCopyLoop (R dist : Nat) : Nat → (Nat → Nat) → Nat → (Nat → Nat)
+  | 0, ring, _ => ring
+  | i + 1, ring, pos =>
+    wrapCopyLoop R dist i (fun j => if j = pos then ring (srcIndex R pos dist) else ring j) (pos + 1)
+
+/-- one LZ77 copy of `i` bytes at distance `dist` in a ring of size `R` (allocation `R + 66`): the speculative
+`memmove16`, the two tests, then either the byte-wise wrap copy or the rest of the block copy.
+Returns the ring (the position advances by `i`); `none` = slice panic. -/
+def decCopy (R : Nat) (ring : Nat → Nat) (pos dist i : Nat) : Option (Nat → Nat) :=
+  let srcStart := srcIndex R pos dist
+  let dstEnd := pos + i
+  let srcEnd := srcStart + i
+  if srcStart + 16 > R + 66 ∨ pos + 16 > R + 66 then none else
+  let ring1 := memmove16 ring pos srcStart
+  if srcEnd > pos ∧ dstEnd > srcStart then some (wrapCopyLoop R dist i ring1 pos)
+  else if dstEnd ≥ R ∨ srcEnd ≥ R then some (wrapCopyLoop R dist i ring1 pos)
+  else if i > 16 then
+    if i > 32 then memcpyWithin ring1 (pos + 16) (srcStart + 16) (i - 16)
+    else some (memmove16 ring1 (pos + 16) (srcStart + 16))
+  else some ring1
+
+/-- what the decoder executes for one command of our abstraction: literal bytes / dictionary word bytes (written
+exactly), or an LZ77 copy -/
+inductive DecCmd where
+  | bytes (b : List Nat)
+  | copy (dist len : Nat)
+
+/-- write `b` at `pos` exactly -/
+def decWrite (ring : Nat → Nat) (pos : Nat) (b : List Nat) : Nat → Nat :=
+  fun j => if pos ≤ j ∧ j < pos + b.length then b.getD (j - pos) 0 else ring j
+
+def decRun (R : Nat) : List DecCmd → (Nat → Nat) → Nat → Option ((Nat → Nat) × Nat)
+  | [], ring, pos => some (ring, pos)
+  | .bytes b :: rest, ring, pos => decRun R rest (decWrite ring pos b) (pos + b.length)
+  | .copy dist len :: rest, ring, pos =>
+    match decCopy R ring pos dist len with
+    | none => none
+    | some ring' => decRun R rest ring' (pos + len)
+
+/-- decoded output of a single last meta-block: ring content at `[0, pos)` -/
+def decOutput (D : Dec) (mlen : Nat) (cmds : List DecCmd) : Option (List Nat) :=
+  match decRun (D.ringSize true mlen) cmds (D.ringAt (D.ringSize true mlen)) 0 with
+  | none => none
+  | some (ring, pos) => some ((List.range pos).map ring)
+
 end BV.Dict
